@@ -109,6 +109,8 @@ def build(vc, case, carriers, variant):
         sl = make_slicer(vc, dm["slicer"], variant + i, case["ctx"])
         slicers.append(sl)
         desc["intervals"] = sl
+        if dm["dist"] == "None":
+            desc["distribution"] = None
         if dm["dist"] == "Ok":
             cls = dist_class(vc, fam)
             if dm["params"] == "FixedAndDependent":
@@ -172,6 +174,7 @@ def fit_args(case, data):
         fd = [ok(i + 1) for i in range(n)]
         fd[pos] = {"MissingMethod": {"weights": None}, "UnknownMethod": {"method": "magic"},
                    "UnknownWeights": {"method": "wlsq", "weights": "quartic"},
+                   "MethodNone": {"method": None},
                    "UnknownKey": {"method": "mle", "weight": "quadratic"},
                    "UnknownKeyPlus": {"method": "mle", "weights": None, "wieghts": "quadratic"}}[fk]
     return d, fd
@@ -425,6 +428,7 @@ def run(ctx):
     ctx.model_check("Validation", "MC_Validation_mut_depkw.cfg", expect_violation="RejectedNotComputed", workers=4)
     ctx.model_check("Validation", "MC_Validation_mut_fitkey.cfg", expect_violation="RejectedNotComputed", workers=4)
     ctx.model_check("Validation", "MC_Validation_mut_object.cfg", expect_violation="RejectedNotComputed", workers=4)
+    ctx.model_check("Validation", "MC_Validation_mut_none.cfg", expect_violation="RejectedNotComputed", workers=4)
     # ---- R
     cases = ctx.generate("Validation", ctx.pick("Gen_Validation_quick.cfg", "Gen_Validation_thorough.cfg"))
     cases.sort(key=case_key)
